@@ -177,3 +177,87 @@ pub fn cram(b: &[u8]) -> Option<CramFraming> {
     }
     Some(f)
 }
+
+/// CRC32 (IEEE) as used by CRAM container headers and blocks.
+fn crc32(b: &[u8]) -> u32 {
+    crc32fast::hash(b)
+}
+
+/// Recompute the CRC32 of every container header and every block of a (possibly mutated) CRAM
+/// 3.x file, as far as the structure can still be walked, so that a corruption reaches the
+/// decoders instead of being caught by a checksum. Returns the number of checksums rewritten.
+pub fn cram_reseal(b: &mut [u8]) -> usize {
+    let mut fixed = 0;
+    if b.len() < 26 || &b[..4] != b"CRAM" {
+        return 0;
+    }
+    let mut off = 26usize;
+    while off < b.len() {
+        // container header
+        let start = off;
+        let hdr = (|| -> Option<(usize, usize)> {
+            let length = u32_at(b, off)? as i32;
+            let mut p = off + 4;
+            for _ in 0..4 {
+                let (_, n) = itf8(b.get(p..)?)?;
+                p += n;
+            }
+            p += ltf8_len(b.get(p..)?)?;
+            p += ltf8_len(b.get(p..)?)?;
+            let (_, n) = itf8(b.get(p..)?)?;
+            p += n;
+            let (n_landmarks, n) = itf8(b.get(p..)?)?;
+            p += n;
+            for _ in 0..n_landmarks.clamp(0, 10_000) {
+                let (_, n) = itf8(b.get(p..)?)?;
+                p += n;
+            }
+            if length < 0 || p + 4 > b.len() {
+                return None;
+            }
+            Some((p, length as usize))
+        })();
+        let Some((crc_at, body_len)) = hdr else { break };
+        let c = crc32(&b[start..crc_at]).to_le_bytes();
+        if b[crc_at..crc_at + 4] != c {
+            b[crc_at..crc_at + 4].copy_from_slice(&c);
+            fixed += 1;
+        }
+        let body_start = crc_at + 4;
+        let body_end = (body_start + body_len).min(b.len());
+        // blocks
+        let mut p = body_start;
+        while p < body_end {
+            let bstart = p;
+            let blk = (|| -> Option<usize> {
+                let mut q = p + 2; // method, content type
+                let (_, n) = itf8(b.get(q..)?)?; // content id
+                q += n;
+                let (size, n) = itf8(b.get(q..)?)?;
+                q += n;
+                let (_, n) = itf8(b.get(q..)?)?; // raw size
+                q += n;
+                if size < 0 {
+                    return None;
+                }
+                let end = q + size as usize;
+                if end + 4 > b.len() {
+                    return None;
+                }
+                Some(end)
+            })();
+            let Some(data_end) = blk else { break };
+            let c = crc32(&b[bstart..data_end]).to_le_bytes();
+            if b[data_end..data_end + 4] != c {
+                b[data_end..data_end + 4].copy_from_slice(&c);
+                fixed += 1;
+            }
+            p = data_end + 4;
+        }
+        if body_start + body_len <= start {
+            break;
+        }
+        off = body_start + body_len;
+    }
+    fixed
+}
